@@ -18,6 +18,7 @@ import XzVerif.Model.Writer2F
 import XzVerif.Model.LazyDec
 import XzVerif.Model.XzWF
 import XzVerif.Model.LazyDec2
+import XzVerif.Model.LazyXz
 /-
   driver — line protocol around the executable definitions of Spec and Model.
   One request per line on stdin, one reply line on stdout.  Core-only, so it links.
@@ -439,6 +440,17 @@ def handle (line : String) : String :=
       let rs := LazyDec2.readSeq (LazyDec2.newReader2 cc (unhex h)) lens
       " ".intercalate (rs.map (fun (o, st) => s!"{o.size}:" ++ (match st with | .ok => "ok" | .eof => "EOF" | .err e => en e))) ++
         " | " ++ hex (LazyDec.delivered rs)
+    | _, _ => "bad-op"
+  -- xzlazy <cfgCap> <single 0/1> <hex(stream)> <len>... → the lazy xz reader: open:<status> or per call n:status … | delivered bytes
+  | "xzlazy" :: cc :: sg :: h :: lens => match cc.toNat?, lens.mapM String.toNat? with
+    | some cc, some lens =>
+      let sn : LazyDec.RStat → String := fun st => match st with
+        | .ok => "ok" | .eof => "EOF" | .err .unexpectedEOF => "UnexpectedEOF" | .err .panic => "panic" | .err .noSpace => "noSpace" | .err _ => "other"
+      match LazyXz.newReader cc (boolOf sg) (unhex h) with
+      | .error st => "open:" ++ sn st
+      | .ok x =>
+        let rs := LazyXz.readSeq x lens
+        " ".intercalate (rs.map (fun (o, st) => s!"{o.size}:" ++ sn st)) ++ " | " ++ hex (LazyDec.delivered rs)
     | _, _ => "bad-op"
   -- btcands <dictCap> <hex(history)> <hex(look ≤ 273)> → special:a:b of the Lean binary tree model
   | ["btcands", dc, h, l] => match dc.toNat? with
